@@ -58,6 +58,9 @@ func (c *c02) world() *c02world {
 		if c.rng.Intn(12) == 0 {
 			shape = 5
 		}
+		if c.rng.Intn(10) == 0 && n <= 5 {
+			shape = 6
+		}
 		if c.rng.Intn(40) == 0 {
 			return nil // the consumer reports an empty committee for this height
 		}
@@ -70,6 +73,8 @@ func (c *c02) world() *c02world {
 				w = uint64(1 + c.rng.Intn(6))
 			case 2:
 				w = uint64(c.rng.Intn(3)) // zero-weight members
+			case 6:
+				w = 3<<60 + uint64(c.rng.Intn(3)) // totals beyond 2^63 (still within 64 bits for up to 5 members)
 			case 5:
 				w = 0 // a committee without any weight
 			case 3:
